@@ -348,7 +348,7 @@ def run(eng, rep) -> None:
             txt = " ".join(norm(n.value, 300) for n in walk_local(m.node) if isinstance(n, ast.Return) and n.value is not None)
             rep.check("self.underlying_type.reflection()" in txt, "R12.4", m.file, m.qual, "+ self.underlying_type.reflection()", "type chain is flattened in order",
                       "container type does not append its element type's chain: nested types are lost")
-    rep.floor("R12.1", "reflection records", n_rec, 15)
+    rep.floor("R12.1", "reflection records", n_rec, 8)
     # structs of the schema never produced by any record
     for s in recs:
         if s not in described and s != "DictField":
@@ -389,7 +389,7 @@ def run(eng, rep) -> None:
                                   "%s has no method '%s': building the record raises AttributeError" % (ci.name, n.func.attr))
                     elif u[0] == "dict" and n.func.attr not in ("items", "keys", "values", "get"):
                         rep.violation("R12.2", f.file, f.qual, norm(n, 70), "dict has no method '%s'" % n.func.attr)
-    rep.floor("R12.2", "typed method calls inside reflection()", n_calls, 10)
+    rep.floor("R12.2", "typed method calls inside reflection()", n_calls, 3)
 
     # ---- R12.3 ---------------------------------------------------------------------
     used = set()
